@@ -144,8 +144,9 @@ package snap
 // is mapped to an empty list). Preconditions - they are part of each of these claims: a non-empty list of ids in
 // [0, 1000]; a tile matrix set that can be indexed for every requested id (macro indexable: matrix 0 present with
 // decoded origin and no variable widths, tile width in [1, 2^40], level <= 32 [known finding F6 for deeper levels],
-// bounding box inside +-5e7 units); known axis order; ordinates of the polygon within +-2e8; a round grid (the
-// extent is a whole number of deepest pixels: needed by the descent contracts).
+// bounding box inside +-5e7 units); known axis order; ordinates of the polygon within +-2e8; the bounding
+// box of tile matrix 0 at least as tall as the grid square, whose side is derived from the width (tmsTall: true for
+// square extents).
 //@ func SnapPolygon
 //@   prelude arith tmsaxis lists morton
 //@   requires len(tmIDs) > 0 && forall(i, 0, len(tmIDs), 0 <= tmIDs[i] && tmIDs[i] <= 1000 && indexable(tileMatrixSet, tmIDs[i]))
